@@ -42,15 +42,18 @@ const c13Settle = 3 * time.Millisecond
 var c13Expired atomic.Int64
 
 func (r *c13Run) patience() time.Duration {
-	if r.expired || c13Expired.Load() >= 6 {
-		return 100 * time.Millisecond
+	switch {
+	case r.expired: // this case has already diverged
+		return 20 * time.Millisecond
+	case c13Expired.Load() >= 6: // this run has already failed several times
+		return 300 * time.Millisecond
 	}
 	return 2 * time.Second
 }
 
 func (r *c13Run) longPatience() time.Duration {
 	if r.expired || c13Expired.Load() >= 6 {
-		return 200 * time.Millisecond
+		return r.patience()
 	}
 	return c13Wait
 }
